@@ -196,6 +196,7 @@ def finish(prop, tier, seed, repo, hs, results, extra, wall, args):
                 undecided.append({"obligation": n, "reason": "obligation of the baseline was not generated on this tree (contract stale or code left the path)"})
     # known findings
     fired = []
+    fired_obligations = set()     # names of contract obligations refuted by a listed known finding
     kept = []
     for v in violations:
         kf = None
@@ -204,6 +205,7 @@ def finish(prop, tier, seed, repo, hs, results, extra, wall, args):
                 kf = k
         if kf:
             fired.append(kf)
+            fired_obligations.add(v["obligation"])
         else:
             kept.append(v)
     violations = kept
@@ -246,11 +248,11 @@ def finish(prop, tier, seed, repo, hs, results, extra, wall, args):
             json.dump(baseline_all, fh, indent=1, sort_keys=True)
     if not args.only and not os.environ.get("VCHECK_NO_EVIDENCE"):
         write_evidence(prop, tier, seed, repo, hs, ob_rows, discharged, violations, undecided, errors, notes, functions, interpreted,
-                       solver_seconds, conc_runs, conc_distinct, samples, bounded_rows, fired, wall, extra)
+                       solver_seconds, conc_runs, conc_distinct, samples, bounded_rows, fired, wall, extra, fired_obligations)
     n_unb = sum(1 for o in ob_rows if o["kind"] == "unbounded")
-    print("vcheck %s tier=%s: %d obligations (%d unbounded, %d shape-bounded, %d data), %d discharged, %d violations, %d undecided; %d functions' ASTs interpreted; %d native contract evaluations; solver %.1fs wall %.1fs -> exit %d"
+    print("vcheck %s tier=%s: %d obligations (%d unbounded, %d shape-bounded, %d data), %d discharged, %d refuted by listed known findings, %d violations, %d undecided; %d functions' ASTs interpreted; %d native contract evaluations; solver %.1fs wall %.1fs -> exit %d"
           % (prop, tier, len(ob_rows), n_unb, sum(1 for o in ob_rows if o["kind"] == "shape-bounded"), sum(1 for o in ob_rows if o["kind"] == "data"),
-             discharged, len(violations), len(undecided), len(interpreted), conc_runs, solver_seconds, wall, exit_code))
+             discharged, len([o for o in ob_rows if o["name"] in fired_obligations and o["status"] != "discharged"]), len(violations), len(undecided), len(interpreted), conc_runs, solver_seconds, wall, exit_code))
     if args.verbose:
         for o in ob_rows:
             print("  %-90s %-10s n=%d %.2fs %s" % (o["name"], o["status"], o["instances"], o["seconds"], o["kind"]))
@@ -276,7 +278,7 @@ def _in_region(k, v):
 
 
 def write_evidence(prop, tier, seed, repo, hs, ob_rows, discharged, violations, undecided, errors, notes, functions, interpreted,
-                   solver_seconds, conc_runs, conc_distinct, samples, bounded_rows, fired, wall, extra):
+                   solver_seconds, conc_runs, conc_distinct, samples, bounded_rows, fired, wall, extra, fired_obligations=()):
     manifest = load_json(os.path.join(VERIF, "MANIFEST.json"), {})
     level = "proof"
     for c in manifest.get("checks", []):
@@ -285,14 +287,19 @@ def write_evidence(prop, tier, seed, repo, hs, ob_rows, discharged, violations, 
     mod = sys.modules.get("contracts.%s" % prop)
     meta = getattr(mod, "META", {}) if mod else {}
     ob_samples = [{"obligation": o["name"], "status": o["status"], "backend": o["backend"], "kind": o["kind"]} for o in ob_rows[:5]]
+    refuted = sorted(o["name"] for o in ob_rows if o["name"] in set(fired_obligations) and o["status"] != "discharged")
     ev = {
         "property_id": prop,
         "tier": tier,
         "seed": seed,
         "level": level,
         "coverage": {
-            "obligations": len(ob_rows),
+            # obligations claimed as proved by this run. Obligations that pin a LISTED known finding (a genuine defect of the code recorded in
+            # known_findings.json) are refuted, not proved: they are counted and named separately below and are not part of the claim
+            "obligations": len(ob_rows) - len(refuted),
             "discharged": discharged,
+            "obligations_refuted_by_known_findings": len(refuted),
+            "obligations_refuted_by_known_findings_names": refuted,
             "checker_cmd": "./vcheck %s --tier %s" % (prop, tier),
             "trusted_base": meta.get("trusted_base", []) + ["pyvc (AST interpreter / VC generator in /verif/pyvc)", "z3 5.1.0", "CPython 3.12 ast module"],
             "evaluations": conc_runs,
